@@ -659,11 +659,10 @@ Section Skeleton.
         | Ok true => (AFail E_IO, s)
         | Ok false =>
             let dn := dir_name dl id key s in
-            let s1 := s in
             let uk := resolve_url dn in
-            if d_has_dataset uk (dsk s1) then (AFail E_IO, s1)            (* Dataset::write: already exists *)
+            if d_has_dataset uk (dsk s) then (AFail E_IO, s)              (* Dataset::write: already exists *)
             else
-              let s2 := set_disk s1 (d_write_dataset uk (dsk s1)) in
+              let s2 := set_disk s (d_write_dataset uk (dsk s)) in
               match q_insert s2 key true (Some dn) with
               | Ok rs => (ALoc (render_key uk) true, set_rows s2 rs)
               | o => (qfail o, s2)
@@ -772,8 +771,7 @@ Section Skeleton.
         | Ok (Some _) => (AFail E_NS, s)
         | Ok None =>
             let dn := dir_name dl id key s in
-            let s1 := s in
-            let s2 := set_disk s1 (d_reserve (child_key dn) (dsk s1)) in      (* .lance-reserved *)
+            let s2 := set_disk s (d_reserve (child_key dn) (dsk s)) in        (* .lance-reserved *)
             match q_insert s2 key true (Some dn) with
             | Ok rs => (ALoc (render_key (resolve_url dn)) false, set_rows s2 rs)
             | o => (qfail o, s2)
